@@ -3,9 +3,9 @@
      K RoundTrip   x -> MarshalBinary -> bytes (merr) -> UnmarshalBinary -> back (uerr) -> MarshalBinary -> bytes2 (m2err)
      K Unmarshal   bytes -> UnmarshalBinary -> back (uerr)
    VERDICTS (MISMATCH), per DESIGN C15-V:
-     hang, panic            a hang, or a panic inside the library ("panicUnk": a panic of the description reader on an
+     hang, panic            a hang, or a panic inside the library ("panic-unknown-param-id": a panic of the description reader on an
                             input in which it meets an unknown parameter identifier - the class of the recorded defect)
-     refused / refusedFL    MarshalBinary returns an error for a well-formed value (FL: it holds a flow label >= 2^19)
+     refused / refused-label-ge-2e19    MarshalBinary returns an error for a well-formed value (the latter: it holds a flow label >= 2^19)
      octets                 marshalled octets differ from QosGrammar!Marshal
      roundTrip              UnmarshalBinary(MarshalBinary(x)) fails or differs from x
      remarshal              marshalling the parsed value again fails or differs
@@ -18,8 +18,12 @@ EXTENDS QosGrammar, Json, TLC
 VARIABLES l
 TraceLog == ndJsonDeserialize("trace.ndjson")
 
+IsRulesOp(op) == op \in {"RulesRoundTrip", "RulesUnmarshal"}
 Mis(cls, e, detail) == PrintT(<<"MISMATCH", l, e.op, cls, detail>>)
-Div(cls, e, detail) == (TLCGet(3) >= 60 \/ PrintT(<<"DIVERGE", l, e.op, cls, detail>>)) /\ TLCSet(3, TLCGet(3) + 1)
+\* notes: at most 12 printed per class and shard (one TLC register per class)
+Reg(cls) == CASE cls = "truncated" -> 3 [] cls = "length" -> 4 [] cls = "spare/value" -> 5 [] cls = "spare/refused" -> 6 [] OTHER -> 7
+Div(cls, e, detail) == LET r == Reg(cls) + (IF IsRulesOp(e.op) THEN 0 ELSE 5) IN
+                       (TLCGet(r) >= 12 \/ PrintT(<<"DIVERGE", l, e.op, cls, detail>>)) /\ TLCSet(r, TLCGet(r) + 1)
 Harness(what) == PrintT(<<"HARNESS", l, what>>)
 
 IsRules(e) == e.op \in {"RulesRoundTrip", "RulesUnmarshal"}
@@ -46,7 +50,7 @@ CheckRoundTrip(e) ==
   IF e.hang THEN Mis("hang", e, 0)
   ELSE IF e.panic THEN (IF e.plib THEN Mis("panic", e, 0) ELSE Harness("panic"))
   ELSE IF ~WFK(e, e.x) THEN Harness("ill-formed case")
-  ELSE IF e.merr THEN Mis(IF IsRules(e) /\ BigLabel(e.x) THEN "refusedFL" ELSE "refused", e, 0)
+  ELSE IF e.merr THEN Mis(IF IsRules(e) /\ BigLabel(e.x) THEN "refused-label-ge-2e19" ELSE "refused", e, 0)
   ELSE LET m == MarshalK(e, e.x) IN
        /\ IF e.bytes = m THEN TRUE ELSE Mis("octets", e, Len(e.bytes) - Len(m))
        /\ IF ~e.uerr /\ e.back = e.x THEN TRUE ELSE Mis("roundTrip", e, IF e.uerr THEN -1 ELSE Len(e.back))
@@ -55,7 +59,7 @@ CheckRoundTrip(e) ==
 CheckUnmarshal(e) ==
   LET r == ParseK(e, e.bytes) IN
   IF e.hang THEN Mis("hang", e, 0)
-  ELSE IF e.panic THEN (IF e.plib THEN Mis(IF ~IsRules(e) /\ MeetsUnknownParam(e.bytes) THEN "panicUnk" ELSE "panic", e, 0) ELSE Harness("panic"))
+  ELSE IF e.panic THEN (IF e.plib THEN Mis(IF ~IsRules(e) /\ MeetsUnknownParam(e.bytes) THEN "panic-unknown-param-id" ELSE "panic", e, 0) ELSE Harness("panic"))
   ELSE IF r.err = "unknown" THEN (IF e.uerr THEN TRUE ELSE Mis("unkAccepted", e, Len(e.back)))
   ELSE IF r.err = "" THEN
        IF MarshalK(e, r.val) = e.bytes /\ WFK(e, r.val)
@@ -70,7 +74,7 @@ Check(e) ==
     [] e.op \in {"RulesUnmarshal", "DescsUnmarshal"} -> CheckUnmarshal(e)
     [] OTHER -> Harness("unknown op")
 
-TInit == l = 1 /\ TLCSet(2, 0) /\ TLCSet(3, 0)
+TInit == l = 1 /\ TLCSet(2, 0) /\ \A r \in 3..12 : TLCSet(r, 0)
 TNext == /\ l <= Len(TraceLog)
          /\ (Check(TraceLog[l]) = TRUE)      \* as a value: TLC must not split the \/ inside into sub-actions
          /\ TLCSet(2, l)
